@@ -16,7 +16,7 @@ from .. import core, gen, history as hist, observers as ob, oracles, user
 ID = "C05"
 LEVEL = "exploration"
 RUNS = {"quick": 320, "thorough": 12000}
-WALL_CAP = {"quick": 240, "thorough": 2400}
+WALL_CAP = {"quick": 240, "thorough": 1500}
 RULE = (
     "case = seeded world (1-4 generated pages, swarm feature subset) + schedule "
     "create, then 1-4 of {create, reindex, reindex <paths>, day change}; every step a real "
